@@ -298,3 +298,61 @@ func c14Worker() {
 }
 
 var _ = sort.Ints
+
+// TestReplayC14 replays operation sequences generated by TLC from spec/Gen_Persist.tla on the real
+// persistence (one fresh bbolt file per sequence), with the full read-back after every step.
+func TestReplayC14(t *testing.T) {
+	out := os.Getenv("VERIF_OUT")
+	sched := os.Getenv("VERIF_SCHED")
+	if out == "" || sched == "" {
+		t.Skip("VERIF_OUT / VERIF_SCHED not set")
+	}
+	shard, shards := envInt("VERIF_SHARD", 0), envInt("VERIF_SHARDS", 1)
+	rec, err := NewRecorder(out)
+	must(err)
+	defer rec.Close()
+	f, err := os.Open(sched)
+	must(err)
+	defer f.Close()
+	sc := bufio.NewScanner(f)
+	sc.Buffer(make([]byte, 1<<20), 1<<24)
+	n := 0
+	errOf := func(e error) string {
+		if e != nil {
+			return "error"
+		}
+		return "ok"
+	}
+	for sc.Scan() {
+		n++
+		if (n-1)%shards != shard {
+			continue
+		}
+		var ops []map[string]string
+		must(json.Unmarshal(sc.Bytes(), &ops))
+		dir := scratchDir("verif.c14r.")
+		d := &c14DB{path: filepath.Join(dir, "fan2go.db")}
+		d.p = persistence.NewPersistence(d.path)
+		must(d.p.Init())
+		rec.NextTrace()
+		rec.Emit(Ev{"ev": "Init", "source": "tlc"})
+		for _, o := range ops {
+			k, fn, v := o["k"], o["f"], o["v"]
+			switch o["op"] {
+			case "save":
+				rec.Emit(Ev{"ev": "Op", "op": "save", "k": k, "f": fn, "v": v, "res": errOf(d.save(k, fn, v)), "got": ""})
+			case "delete":
+				rec.Emit(Ev{"ev": "Op", "op": "delete", "k": k, "f": fn, "v": "", "res": errOf(d.del(k, fn)), "got": ""})
+			case "damage":
+				if d.damage(k, fn) {
+					rec.Emit(Ev{"ev": "Op", "op": "damage", "k": k, "f": fn, "v": "", "res": "ok", "got": ""})
+				}
+			case "load":
+				res, got := d.load(k, fn)
+				rec.Emit(Ev{"ev": "Op", "op": "load", "k": k, "f": fn, "v": "", "res": res, "got": got, "probe": false})
+			}
+			c14Probe(rec, d)
+		}
+		os.RemoveAll(dir)
+	}
+}
